@@ -454,7 +454,7 @@ impl LineProgram {
 
         if line_advance != 0 {
             let special_line = (line_advance as u64).wrapping_sub(line_base);
-            if special_line < line_range {
+            if special_line < line_range && special_base + special_line <= 255 {
                 special = special_base + special_line;
                 use_special = true;
             } else {
